@@ -37,9 +37,9 @@ var solvers = []solverSpec{
 }
 
 // runSolver executes one solver over the whole script and splits the output per obligation.
-func runSolver(sp solverSpec, file string, perQueryMs int, totalTimeout time.Duration) *SolverRun {
+func runSolver(pctx context.Context, sp solverSpec, file string, perQueryMs int, totalTimeout time.Duration, onResult func(id int, res string)) *SolverRun {
 	run := &SolverRun{Name: sp.name, Results: map[int]string{}, Times: map[int]float64{}, Models: map[int]string{}}
-	ctx, cancel := context.WithTimeout(context.Background(), totalTimeout)
+	ctx, cancel := context.WithTimeout(pctx, totalTimeout)
 	defer cancel()
 	args := sp.cmd(file, perQueryMs)
 	cmd := exec.CommandContext(ctx, args[0], args[1:]...)
@@ -94,6 +94,9 @@ func runSolver(sp solverSpec, file string, perQueryMs int, totalTimeout time.Dur
 				if _, done := run.Results[cur]; !done {
 					run.Results[cur] = line
 					run.Times[cur] = time.Since(last).Seconds()
+					if onResult != nil {
+						onResult(cur, line)
+					}
 				}
 			}
 			_ = curKind
@@ -132,7 +135,7 @@ func runSolver(sp solverSpec, file string, perQueryMs int, totalTimeout time.Dur
 	}
 	cmd.Wait()
 	run.Total = time.Since(start).Seconds()
-	if ctx.Err() != nil && run.Err == "" {
+	if ctx.Err() != nil && run.Err == "" && pctx.Err() == nil {
 		run.Err = "total timeout"
 	}
 	if run.Err == "" && stderr.Len() > 0 && len(run.Results) == 0 {
@@ -142,11 +145,40 @@ func runSolver(sp solverSpec, file string, perQueryMs int, totalTimeout time.Dur
 }
 
 // solveScript races all solvers on one script. Returns per-solver runs.
-func solveScript(dir, name string, sc *Script, perQueryMs int, total time.Duration, which []string) []*SolverRun {
+func solveScript(dir, name string, sc *Script, perQueryMs int, total time.Duration, which []string, obls []*Obl) []*SolverRun {
 	os.MkdirAll(dir, 0o755)
 	var wg sync.WaitGroup
 	var runs []*SolverRun
 	var mu sync.Mutex
+	// stop all solvers as soon as every checked obligation has a definite answer from someone
+	need := map[int]bool{}
+	isCover := map[int]bool{}
+	nCovers := 0
+	for _, o := range obls {
+		if o.Check {
+			need[o.ID] = true
+			isCover[o.ID] = o.IsCover
+			if o.IsCover {
+				nCovers++
+			}
+		}
+	}
+	pctx, pcancel := context.WithCancel(context.Background())
+	defer pcancel()
+	var dmu sync.Mutex
+	onResult := func(id int, res string) {
+		dmu.Lock()
+		defer dmu.Unlock()
+		if !need[id] {
+			return
+		}
+		if (isCover[id] && res == "sat") || (!isCover[id] && res == "unsat") {
+			delete(need, id)
+			if len(need) == 0 && len(obls) > 0 {
+				pcancel()
+			}
+		}
+	}
 	for _, sp := range solvers {
 		use := len(which) == 0
 		for _, w := range which {
@@ -158,19 +190,47 @@ func solveScript(dir, name string, sc *Script, perQueryMs int, total time.Durati
 			continue
 		}
 		file := filepath.Join(dir, sanitize(name)+"."+sp.name+".smt2")
-		if err := os.WriteFile(file, []byte(sc.Text(sp.logic)), 0o644); err != nil {
+		if err := os.WriteFile(file, []byte(sc.TextFor(sp.logic, strings.HasPrefix(sp.name, "z3"), perQueryMs)), 0o644); err != nil {
 			continue
 		}
 		wg.Add(1)
 		go func(sp solverSpec, file string) {
 			defer wg.Done()
 			solverSem <- struct{}{}
-			r := runSolver(sp, file, perQueryMs, total)
+			r := runSolver(pctx, sp, file, perQueryMs, total, onResult)
 			<-solverSem
 			mu.Lock()
 			runs = append(runs, r)
 			mu.Unlock()
 		}(sp, file)
+	}
+	// covers: separate script (same context, obligations only assumed), short timeout, z3 only
+	cctx, ccancel := context.WithCancel(context.Background())
+	defer ccancel()
+	if nCovers > 0 {
+		for _, sp := range solvers {
+			if !strings.HasPrefix(sp.name, "z3") {
+				continue
+			}
+			file := filepath.Join(dir, sanitize(name)+".cover."+sp.name+".smt2")
+			if err := os.WriteFile(file, []byte(sc.CoverText(sp.logic)), 0o644); err != nil {
+				continue
+			}
+			wg.Add(1)
+			go func(sp solverSpec, file string) {
+				defer wg.Done()
+				solverSem <- struct{}{}
+				r := runSolver(cctx, sp, file, 1000, time.Duration(nCovers)*1500*time.Millisecond+20*time.Second, func(id int, res string) {
+					onResult(id, res)
+				})
+				ccancel() // the first cover run to finish ends the other one
+				<-solverSem
+				r.Name = sp.name
+				mu.Lock()
+				runs = append(runs, r)
+				mu.Unlock()
+			}(sp, file)
+		}
 	}
 	wg.Wait()
 	return runs
